@@ -3,6 +3,7 @@ package props
 import (
 	"fmt"
 	"go/token"
+	"go/types"
 	"strings"
 
 	"golang.org/x/tools/go/ssa"
@@ -98,6 +99,7 @@ func checkC04(c *core.Ctx) {
 	r3 := c.Rule("R4.3", "T", "pooled-branch length guard ≤ pool block size")
 	r4 := c.Rule("R4.4", "T", "who may read NoCopy / Pool")
 
+	inputNeverWritten(c, c.Rule("R4.6", "T", "decode code never writes the bytes it is given (= R2.2): under NoCopy they are the caller's buffer, so a write there — including an append into spare capacity behind the packet — makes NoCopy differ from default decoding"), effects(p))
 	r5 := c.Rule("R4.5", "T", "decoders see exactly len(data) bytes: no decode-reachable function extends a byte slice it was given past its length (s[:cap(s)], s[:len(s)+k])")
 	{
 		roots := p.Roots()
@@ -319,6 +321,43 @@ func checkC04(c *core.Ctx) {
 				// exactly one Put per Dispose path (no loop, single site)
 				again := core.ForwardSearch(fn, ins, func(i ssa.Instruction) bool { return i == ins }, nil) != nil
 				r2.Check(okArg && !again, core.FnKey(fn)+"/pool.Put", p.InstrPos(ins), "Dispose puts back the block recorded at construction, once", "Dispose does not put back exactly the block recorded in the packet")
+				// once the block is in the pool another goroutine may own it: no byte memory is written afterwards
+				late := core.ForwardSearch(fn, ins, func(i ssa.Instruction) bool {
+					if i == ins {
+						return false
+					}
+					isBytes := func(v ssa.Value) bool {
+						t := v.Type().Underlying()
+						if pt, ok := t.(*types.Pointer); ok {
+							t = pt.Elem().Underlying()
+						}
+						switch u := t.(type) {
+						case *types.Slice:
+							b, ok := u.Elem().Underlying().(*types.Basic)
+							return ok && b.Kind() == types.Uint8
+						case *types.Array:
+							b, ok := u.Elem().Underlying().(*types.Basic)
+							return ok && b.Kind() == types.Uint8
+						}
+						return false
+					}
+					switch x := i.(type) {
+					case *ssa.Store:
+						if ia, ok := x.Addr.(*ssa.IndexAddr); ok && isBytes(ia.X) {
+							return true
+						}
+					case ssa.CallInstruction:
+						cc2 := x.Common()
+						if bi, ok := cc2.Value.(*ssa.Builtin); ok {
+							switch bi.Name() {
+							case "clear", "copy", "append":
+								return len(cc2.Args) > 0 && isBytes(cc2.Args[0])
+							}
+						}
+					}
+					return false
+				}, nil)
+				r2.Check(late == nil, core.FnKey(fn)+"/nothing-written-after-Put", p.InstrPos(ins), "no byte memory is written after the block went back to the pool", "byte memory is written after the block was handed back to the pool: by then another goroutine's NewPacket may already have taken the block and copied its packet into it, so a live packet's bytes are overwritten")
 			})
 		}
 		if nGet == 0 || nPut == 0 {
